@@ -149,7 +149,11 @@ impl Store {
         // Recovery (WAL replay, rollback log pruning) acts on what is read here, so make it
         // durable first: otherwise a later power loss could revert the meta page underneath the
         // changes recovery made on its behalf.
+        #[cfg(nomt_verif)]
+        crate::verif::pre(crate::verif::Kind::Fsync, std::os::fd::AsRawFd::as_raw_fd(&meta_fd), 0, 0, None)?;
         meta_fd.sync_all()?;
+        #[cfg(nomt_verif)]
+        crate::verif::post(crate::verif::Kind::Fsync, std::os::fd::AsRawFd::as_raw_fd(&meta_fd));
         let meta = meta::Meta::read(&page_pool, &meta_fd)?;
         meta.validate()?;
         let values = beatree::Tree::open(
